@@ -183,3 +183,29 @@ def run_fleet_share(ctx, op, n, versions=PY3_OTHERS, profile=None, opts_strategy
                 ctx.fail(c, tuple(rep['signature']) + (v,), rep.get('observed'))
 
         hyp_run(ctx, 'fleet-' + v, st.tuples(pstrat, ostrat), prop, n)
+
+
+def run_fixed(ctx, op, sources, versions=('2.7',) + tuple(PY3_OTHERS), opts=None):
+    """Run a fixed list of (version-sensitive) sources through `op` inside this shard's interpreter(s)."""
+    from .runner import sha
+    vs = [v for i, v in enumerate(versions) if i % ctx.nshards == ctx.index % len(versions)] if ctx.nshards >= len(versions) else list(versions)
+    vs = [versions[ctx.index % len(versions)]]
+    for v in vs:
+        if interpreter_path(v) is None:
+            ctx.note('interpreter_missing:' + v)
+            continue
+        w = get_worker(v)
+        for src in sources:
+            req = {'op': op, 'opts': opts or {}, 'src': src}
+            rep = w.call(req)
+            if rep.get('timeout') or rep.get('worker_died'):
+                ctx.note('worker_timeout_or_death:' + v)
+                continue
+            if 'harness_error' in rep:
+                raise RuntimeError('worker %s: %s' % (v, rep['harness_error']))
+            if rep.get('domain') is False:
+                ctx.note('version_sensitive_out_of_domain:' + v)
+                continue
+            ctx.case(sha('fixed', src, v, repr(opts)), True, classes=['version-sensitive:' + v], sample={'interpreter': v, 'source': src})
+            if rep.get('ok') is False:
+                ctx.fail_direct({'source': src, 'opts': opts or {}, 'interp': v}, tuple(rep['signature']) + (v,), rep.get('observed'))
